@@ -5,7 +5,7 @@
 //   s <var|-> <n> c1..cn <src> <nops> op* final
 //   i <nterms> {coef nv {name exp}*}* <nvars> name* <src> <nops> op* final
 //   op    = du | dm <name> | iu | im <name>
-//   final = none | eu k x1..xk | em k {nb {name val}*}* | ai a b c
+//   final = none | np (structure only, no U probes) | eu k x1..xk | em k {nb {name val}*}* | ai a b c
 //   (<src>, <name>: strings as code points `n c1 .. cn`; floats as hex bit patterns)
 // result line
 //   P <structure> U <eu> <du> <iu> E <v>*      (v = hex | err:<Kind>)
@@ -114,12 +114,18 @@ fn rest<P: PolyIo>(mut p: P, t: &mut Toks) -> String {
         }
     }
     let mut out = format!("P {} U", p.show());
-    out.push_str(&format!(" {}", okerr(&p.eval_univariate(0.5_f64))));
-    out.push_str(&format!(" {}", okerr(&p.derivate_univariate())));
-    out.push_str(&format!(" {}", okerr(&p.indefinite_integral_univariate())));
+    let fin = t.word();
+    if fin == "np" {
+        // structure only (degree-65535 cases: the extracted model is quadratic per pass)
+        out.push_str(" - - -");
+    } else {
+        out.push_str(&format!(" {}", okerr(&p.eval_univariate(0.5_f64))));
+        out.push_str(&format!(" {}", okerr(&p.derivate_univariate())));
+        out.push_str(&format!(" {}", okerr(&p.indefinite_integral_univariate())));
+    }
     out.push_str(" E");
-    match t.word() {
-        "none" => {}
+    match fin {
+        "none" | "np" => {}
         "eu" => {
             for x in t.fvec() {
                 out.push_str(&format!(" {}", val(p.eval_univariate(x))));
